@@ -162,7 +162,7 @@ func genC06(seed uint64, run int, tier string) *Plan {
 		case k < 7:
 			op = Op{K: "insertOne", DB: db, C: c, D: jd(rich(r.IntN(5) != 0))}
 		case k < 9:
-			op = Op{K: "insertMany", DB: db, C: c}
+			op = Op{K: "insertMany", DB: db, C: c, Ordered: r.IntN(2) == 0}
 			for m := 2 + r.IntN(4); m > 0; m-- {
 				op.Docs = append(op.Docs, jd(rich(true)))
 			}
